@@ -351,6 +351,7 @@ inline ChildResult run_in_child(Engine& e, const Plan& p, int timeout_s = 60) {
     }
     r.crashed = true;
     if (WIFSIGNALED(status) && WTERMSIG(status) == SIGALRM) { r.cls = "hang:wallclock"; r.detail = "run exceeded wall-clock watchdog"; return r; }
+    if (WIFSIGNALED(status) && WTERMSIG(status) == SIGXCPU) { r.cls = "hang:step-limit"; r.detail = "run exceeded the engine's hard cap of simulated steps (a library call that does not return)"; return r; }
     if (se.find("Sanitizer") != std::string::npos || se.find("runtime error:") != std::string::npos) {
         r.cls = classify_sanitizer(se);
         size_t p0 = se.find("ERROR:"); if (p0 == std::string::npos) p0 = se.find("runtime error:");
